@@ -50,7 +50,7 @@ class C13(Check):
             "reference KCV. (d) CKA_WRAP_TEMPLATE / CKA_UNWRAP_TEMPLATE honoured. Non-trivial = wrapped key length not a block "
             "multiple, a non-zero IV, a private-key wrap, a malformed blob, or a derive with truncation.")
     assumptions = ["Botan 2.19 (reference unwrap / PKCS#8 parser) is trusted", "flipping a bit of an RSA-PKCS#1 v1.5 or CBC-PAD blob may still unpad by chance: only 'no object when rejected' is judged there"]
-    essential_labels = {"interop_ref_unwraps_token": 800, "interop_token_unwraps_ref": 800, "malformed_rejected": 600, "kcv_checked": 1200,
+    essential_labels = {"interop_ref_unwraps_token": 500, "interop_token_unwraps_ref": 500, "malformed_rejected": 400, "kcv_checked": 700,
                         "derive_equal": 500, "pkcs8_interop": 200}
 
     def setup(self, ctx):
